@@ -254,6 +254,16 @@ Theorem model_passes_C08_clause_9 :
 Proof. exact model_passes_C08_clause_9_lemma. Qed.
 Print Assumptions model_passes_C08_clause_9.
 
+(** clause 8: every new-batch / expired-batch queue entry agrees with the height marker of its
+    context, and every stored context with a running batch has an expiry marker *)
+Theorem model_passes_C08_clause_8 :
+  forall c steps h0 t0 l0 univ seen fired tr sc p st code nc cb,
+    NoDup (create_txhs steps) ->
+    let s := run c (init h0 t0 l0) steps in
+    holds_C08 seen fired tr sc p st (obs_of univ code nc cb s) <> 8.
+Proof. exact model_passes_C08_clause_8_lemma. Qed.
+Print Assumptions model_passes_C08_clause_8.
+
 (** ** non-vacuity: a history in which one request is answered and its sibling expires; a
     late answer to the expired one and a duplicate answer to the answered one are rejected;
     the one-shot context is removed; a repeated context (frequency 3, total 2) starts its
